@@ -56,6 +56,14 @@ PROPS = {
         'level_text': 'Theorem read_returns_latest: on every store state passing the decidable check invB (I1: levels sorted; I2: newer-above) KeyValueStore::load returns exactly the visible version of the union of all components; step theorems: ingest, every closed compaction with any outputs/cut points/GC drops, trivial moves preserve I2 and (without drops) every read at every timestamp. The model kvsLoad/invB/closedB is run on every state the real store reaches in seeded single-stepped histories and compared with the real reads; the oracle compares reads with a sequential map.',
         'level_note': 'Trusted: Lean kernel; axioms propext, Classical.choice, Quot.sound; single-step hooks; state dumps via the implementation\'s own cursors. Invariants of reached states and closedness of chosen compactions are run-time checked, not proved for the selector. Known finding D-9 (recover).',
     },
+    'C03': {
+        'trusted': [STEP, 'dumped store states are read back through Sst::cursor / MemTable::cursor of the implementation'],
+        'assumptions': [STEP, 'children of the merge are tables with pairwise distinct (key, timestamp) (Family): the duplicate window of a flush (immutable memtable and its file both visible) is covered by the check only',
+                        'reopen on a state with key- and timestamp-overlapping files is known finding D-9 (C01)'],
+        'partial': ['scan_spec takes "children behave as sorted tables" as hypotheses (delivered by C10/C11 theorems for files; by the checked invariants for levels); merging with duplicate (key, ts) across children is not a theorem'],
+        'level_text': 'Theorem scan_spec: Bounds(Pruning(Merging[children])) over children behaving as sorted tables shows, under every finite program of seek_to_first/seek_to_last/seek/next/prev, the reference cursor over the versions that are newest <= t for their key, not tombstones, and in range; scan_depends_only_on_versions: unchanged by flush, moves and non-GC compaction. The right-hand side is computed by the model driver from every dumped state of seeded store histories and compared with KeyValueStore::range_scan for seeded bounds and programs; the oracle compares with the sequential map and with point reads.',
+        'level_note': 'Trusted: Lean kernel; axioms propext, Classical.choice, Quot.sound; single-step hooks; dumps via the implementation\'s cursors. The children-are-tables hypotheses are discharged by other theorems/checks, not here. D-1 repaired; D-9 known finding shared with C01.',
+    },
     'C14': {
         'post': c14_post,
         'trusted': [HASH],
